@@ -23,6 +23,13 @@ import PdModel.Proto
       the answer lists the final directory sorted by name.
 * `buildtime NOW ENV OPT`              → `time <seconds>` | `exit-error` | `crash`    (System.__init__ + driver.get_system)
       NOW: integer; ENV: `unset` | `notint` | `v=<int>` | `yearrange` | `platformrange`; OPT: `-` | `bad` | `t=<int>`
+* `order <alpha|source|lc|full> OBJ*`  → `ok <position>*` | `TypeError-possible`   (sorted(objs, key=…): positions in the request)
+      OBJ = `<privacy>;<kind|->;<line>;<m|o>;<fullName>;<fullName.lower()>`
+* `strorder <names|lower|plain> STR*` → `ok <position>*`      STR = `<s>;<s.lower()>`
+      names: key=(x.lower(), x); lower: key=x.lower(); plain: no key
+* `unmasked CLASS (| CLASS)*`         → `ok <id>*` | `IndexError`   (util.unmasked_attrs of the chain; CLASS = MEMBER*,
+      MEMBER = `<name>;<v|h>`; ids number the members of the request from 0)
+* `inherited CLASS (| CLASS)*`        → `ok <id>*`                  (util.inherited_members, classes in mro order)
 * `exec DIR* | OP*`                   → the same without the `wf=` token (stream of the OS primitives)
 -/
 namespace Determinism
@@ -132,6 +139,47 @@ def decOpt (tok : String) : Option OptTime :=
   | ["t", n] => (decInt n).map OptTime.time
   | _ => none
 
+def decObj (tok : String) : Option Obj :=
+  match tok.splitOn ";" with
+  | [p, k, l, m, f, lo] => do
+    let kind ← (if k == "-" then some none else k.toNat?.map some)
+    some { privacy := (← p.toNat?), kind := kind, line := (← l.toNat?), isModule := m == "m",
+           full := (← decName f), lowerFull := (← decName lo) }
+  | _ => none
+
+def decStr (tok : String) : Option Str :=
+  match tok.splitOn ";" with
+  | [a, b] => do some { s := (← decName a), lower := (← decName b) }
+  | _ => none
+
+def showPositions {α : Type} (l : List (α × Nat)) : String :=
+  " ".intercalate ("ok" :: l.map (fun p => toString p.2))
+
+/-- split a token list at `|` -/
+def splitBar : List String → List (List String)
+  | [] => [[]]
+  | "|" :: rest => [] :: splitBar rest
+  | t :: rest =>
+    match splitBar rest with
+    | [] => [[t]]
+    | g :: gs => (t :: g) :: gs
+
+/-- parse classes, numbering the members 0, 1, 2 … over the whole request -/
+def decClasses (groups : List (List String)) : Option (List (List Member)) :=
+  let rec go (gs : List (List String)) (next : Nat) : Option (List (List Member)) :=
+    match gs with
+    | [] => some []
+    | g :: rest => do
+      let ms ← (g.zipIdx).mapM (fun (tok, i) =>
+        match tok.splitOn ";" with
+        | [n, v] => (decName n).map (fun nm => ({ name := nm, visible := v == "v", id := next + i } : Member))
+        | _ => none)
+      let tl ← go rest (next + g.length)
+      some (ms :: tl)
+  go groups 0
+
+def showMembers (ms : List Member) : String := " ".intercalate ("ok" :: ms.map (fun m => toString m.id))
+
 def handle (args : List String) : String :=
   match args with
   | "sorted" :: ns =>
@@ -185,6 +233,38 @@ def handle (args : List String) : String :=
        | .exitError => "exit-error"
        | .crash => "crash")
     | _, _, _ => "bad-op"
+  | "order" :: which :: toks =>
+    match toks.mapM decObj with
+    | some objs =>
+      let l := objs.zipIdx
+      (match which with
+       | "alpha" => showPositions (sortedWith alphaLe (fun p => alphaKey p.1) l)
+       | "lc" => showPositions (sortedWith lcLe (fun p => lcKey p.1) l)
+       | "full" => showPositions (sortedWith lexLe (fun p => fullKey p.1) l)
+       | "source" =>
+         (match sortedSource? objs with
+          | some _ => showPositions (sortedWith sourceLe (fun p => sourceKey p.1) l)
+          | none => "TypeError-possible")
+       | _ => "bad-op")
+    | none => "bad-op"
+  | "strorder" :: which :: toks =>
+    match toks.mapM decStr with
+    | some xs =>
+      let l := xs.zipIdx
+      (match which with
+       | "names" => showPositions (sortedWith lcLe (fun p => nameKey p.1) l)
+       | "lower" => showPositions (sortedWith lexLe (fun p => lowerKey p.1) l)
+       | "plain" => showPositions (sortedWith lexLe (fun p => p.1.s) l)
+       | _ => "bad-op")
+    | none => "bad-op"
+  | "unmasked" :: toks =>
+    match decClasses (splitBar toks) with
+    | some chain => (match unmaskedAttrs chain with | .ok ms => showMembers ms | .indexError => "IndexError")
+    | none => "bad-op"
+  | "inherited" :: toks =>
+    match decClasses (splitBar toks) with
+    | some mro => showMembers (inheritedMembers mro)
+    | none => "bad-op"
   | "run" :: rest => runOp true rest
   | "exec" :: rest => runOp false rest
   | _ => "bad-op"
